@@ -44,7 +44,7 @@ var TraceFile string
 type engineK struct{}
 
 func init() {
-	Register(engineK{}, "C01", "C02", "C03", "C04", "C05", "C06", "C07", "C08", "C09", "C10", "C11", "C12", "C14", "C19")
+	Register(engineK{}, "C01", "C02", "C03", "C04", "C05", "C06", "C07", "C08", "C09", "C10", "C11", "C12", "C13", "C14", "C15", "C19", "C20")
 }
 
 func (engineK) Name() string { return "K" }
